@@ -8,7 +8,7 @@ WT=/tmp/confirm_${P}_${J}
 rm -rf $WT; git -C /repo worktree prune
 git -C /repo worktree add -q --detach $WT HEAD || exit 2
 R=0
-( cd $WT && git apply $SRC/patch$I.diff ) || { echo "patch does not apply to current HEAD"; R=3; }
+( cd $WT && { git apply $SRC/patch$I.diff || git apply -3 $SRC/patch$I.diff; } ) || { echo "patch does not apply to current HEAD"; R=3; }
 if [ $R = 0 ]; then
   ( cd $WT && PYTHONPATH=$WT /venv/bin/python -m pytest -q -p no:cacheprovider --timeout=900 --deselect tests/midifiles/test_tracks.py::test_merge_large_midifile >/tmp/confirm.pytest 2>&1 ); TR=$?
   echo "pytest exit $TR: $(grep -c . /tmp/confirm.pytest) lines, $(grep -o '\.' /tmp/confirm.pytest | wc -l) dots" > /tmp/confirm.tests
